@@ -304,7 +304,16 @@ fn assign_defects(thorough: bool, out: &mut Vec<Defect>) {
 
 fn all_defects(thorough: bool) -> Vec<Defect> {
     let mut out = vec![];
-    let chains = scope_chains(if thorough { 2 } else { 1 });
+    let mut chains = scope_chains(if thorough { 2 } else { 1 });
+    if !thorough {
+        // a function whose body contains a conditional (or a let): the duplicate-definition defects need a second binder
+        for c in scope_chains(2) {
+            let kinds: Vec<&str> = c.iter().map(|(b, _)| BINDERS[*b]).collect();
+            if c.len() == 2 && c[0].1 == c[1].1 && ["defun", "inline"].contains(&kinds[0]) && ["if-branch", "let", "lambda-capture"].contains(&kinds[1]) {
+                chains.push(c);
+            }
+        }
+    }
     for c in &chains {
         // quick: length-1 chains, both variants; thorough: length <= 2 with equal variants
         if c.len() == 2 && c[0].1 != c[1].1 {
@@ -312,9 +321,7 @@ fn all_defects(thorough: bool) -> Vec<Defect> {
         }
         let case = scope_case(c, NamePolicy::Fresh, None);
         unbound_defects(&case, &mut out);
-        if c.len() == 1 || thorough {
-            duplicate_defects(&case, &mut out);
-        }
+        duplicate_defects(&case, &mut out);
     }
     for case in calls_cases(None, 2) {
         if case.tags[0].starts_with("calls/recursion") || case.tags[0].starts_with("calls/chain") && case.tags[2] == "rest-at1" {
